@@ -30,8 +30,20 @@ pub fn c03(seed: u64, twin: bool) -> Vec<gen::Op> {
                 out.push(gen::Op::Feed { slot, form, bytes });
             }
             gen::Op::Shot { slot, kind } => {
-                // one-shot front ends re-hash the whole payload: keep at most one
+                // one-shot front ends re-hash the whole payload: keep at most one;
+                // no buffer scribbling and few reads (each costs seconds under Miri)
                 if !out.iter().any(|o| matches!(o, gen::Op::Shot { .. })) {
+                    let kind = match kind {
+                        gen::Shot::Buf => gen::Shot::Buf,
+                        gen::Shot::Stream { mut reads, .. } => {
+                            reads.truncate(3);
+                            gen::Shot::Stream { reads, scribble: false, tail: 0 }
+                        }
+                        gen::Shot::File { mut reads, .. } => {
+                            reads.truncate(3);
+                            gen::Shot::File { reads, scribble: false, tail: 0 }
+                        }
+                    };
                     out.push(gen::Op::Shot { slot, kind });
                 }
             }
@@ -93,10 +105,32 @@ pub fn io(seed: u64) -> Vec<crate::io::Op> {
                 out.push(Op::Data(b));
             }
             o => {
-                // a spread of the enumerated executions
+                // a spread of the enumerated executions; no buffer scribbling and
+                // at most 6 reads each (every read costs seconds under Miri)
                 if execs < 10 && (i < 3 || i % (n / 8 + 1) == 0) {
                     execs += 1;
-                    out.push(o);
+                    let cut = |sc: Vec<crate::reader::REv>| -> Vec<crate::reader::REv> {
+                        if sc.len() > 6 {
+                            // keep the first 3 and the last 3 events (the fault sits at the end)
+                            let mut v = sc[..3].to_vec();
+                            v.extend_from_slice(&sc[sc.len() - 3..]);
+                            v
+                        } else {
+                            sc
+                        }
+                    };
+                    out.push(match o {
+                        Op::Stream { script, sticky, tail, .. } => Op::Stream { script: cut(script), scribble: false, sticky, tail: if tail > 0 { 63 } else { 0 } },
+                        Op::File { mut spec } => {
+                            spec.script = cut(spec.script);
+                            spec.scribble = false;
+                            if spec.tail > 0 {
+                                spec.tail = 63;
+                            }
+                            Op::File { spec }
+                        }
+                        d => d,
+                    });
                 }
             }
         }
